@@ -228,6 +228,13 @@ def mk_ifexp(c: Term, a: Term, b: Term) -> Term:
     c = _strip_bool(c)
     if a == b:
         return a
+    if a[0] == "building" and b[0] == "building" and a[1] == b[1]:
+        # a container being filled: each item carries its own path condition, so the merge of two
+        # states one of which extends the other (skipped by `continue` / an if without else) is the longer one
+        if a[2][: len(b[2])] == b[2]:
+            return a
+        if b[2][: len(a[2])] == a[2]:
+            return b
     if c == TRUE:
         return a
     if c == ("const", False):
@@ -457,6 +464,9 @@ class Sym:
             return None  # public constants keep their name (it is part of the vocabulary rules use)
         if _const_like(node):
             return self.ev(node, {}, TRUE, ())
+        if name.isupper() and _table_like(node):
+            # a private UPPER_CASE literal table (lookup dict, tuple of names): read-only by convention
+            return self.ev(node, {}, TRUE, ())
         return None
 
     # --------------------------------------------------------------- expressions
@@ -653,6 +663,9 @@ class Sym:
                 inl = self._inline(fake, b, args, kws, env, bp, loops)
                 outs.append(inl if inl is not None else bt)
             return mk_ifexp(func[1], outs[0], outs[1])
+        if func == ("name", "dict") and not args and kws and all(k != "**" for k, _v in kws) and "dict" not in env:
+            # dict(a=x, b=y) is the literal {"a": x, "b": y} (source order)
+            return ("dict",) + tuple((("const", k.arg), E(k.value)) for k in e.keywords)
         term: Term = ("call", func, args, kws)
         self._record("call", e, func, term, path, loops)
         inl = self._inline(e, func, args, kws, env, path, loops)
@@ -1148,6 +1161,21 @@ def _const_like(node: ast.AST) -> bool:
     return True
 
 
+def _table_like(node: ast.AST) -> bool:
+    """A literal dict/tuple/list/set of constants (keys may be frozenset({...}) / tuple literals), at most 64 nodes."""
+    n_nodes = 0
+    for n in ast.walk(node):
+        n_nodes += 1
+        if isinstance(n, ast.Call):
+            if not (isinstance(n.func, ast.Name) and n.func.id in ("frozenset", "tuple", "set") and len(n.args) <= 1 and not n.keywords):
+                return False
+        elif not isinstance(n, (ast.Dict, ast.List, ast.Set, ast.Tuple, ast.Constant, ast.Name, ast.Load, ast.UnaryOp, ast.USub)):
+            return False
+        if isinstance(n, ast.Name) and n.id not in ("frozenset", "tuple", "set"):
+            return False
+    return n_nodes <= 64
+
+
 def _stringy(t: Term) -> bool:
     return (t[0] == "const" and isinstance(t[1], (str, bytes))) or t[0] == "fstr" or (t[0] == "bin" and t[1] == "Concat")
 
@@ -1243,6 +1271,20 @@ def _match(p: Any, t: Any, b: dict) -> Optional[dict]:
         # max(a, b) = max(b, a): the arguments are sorted in the normal form, but a metavariable sorts differently
         r = _match(p[1], t[1], b)
         return _match_ac("args", list(p[2]), list(t[2]), r) if r is not None else None
+    if p[0] == "call" and t[0] == "call" and len(p) == 4 and len(t) == 4 and (len(p[2]) != len(t[2]) or tuple(k for k, _ in p[3]) != tuple(k for k, _ in t[3])):
+        # f(a, b) vs f(a, y=b): compare by parameter name when the callee's signature is known
+        r = _match(p[1], t[1], b)
+        if r is None:
+            return None
+        pk = _all_keyword((p[0], t[1], p[2], p[3]))
+        tk = _all_keyword(t)
+        if pk is None or tk is None or set(pk) != set(tk):
+            return None
+        for k in sorted(pk):
+            r = _match(pk[k], tk[k], r)
+            if r is None:
+                return None
+        return r
     if len(p) != len(t):
         return None
     if (p[0] == "cmp" and t[0] == "cmp" and p[1] == t[1] and p[1] in SYMM) or (p[0] == "bin" and t[0] == "bin" and p[1] == t[1] and p[1] in ("BitAnd", "BitOr", "BitXor")):
@@ -1259,6 +1301,72 @@ def _match(p: Any, t: Any, b: dict) -> Optional[dict]:
         if cur is None:
             return None
     return cur
+
+
+# ---- signatures: positional and keyword spellings of one call are the same call
+SIGS: dict[str, list] = {}
+
+
+def register_signatures(P: "Program") -> None:
+    """name -> parameter lists (without self/cls) of every function / constructor of that name in the program."""
+    if SIGS.get("__program__") == [id(P)]:
+        return
+    SIGS.clear()
+    SIGS["__program__"] = [id(P)]
+    for f in P.all_functions():
+        if f.kind in ("overload", "setter", "property", "cached_property"):
+            continue
+        a = f.node.args
+        params = [x.arg for x in a.posonlyargs + a.args]
+        if f.cls is not None and f.kind != "staticmethod" and params:
+            params = params[1:]
+        entry = (tuple(params), a.vararg is not None)
+        SIGS.setdefault(f.name, []).append(entry)
+        if f.name == "__init__" and f.cls is not None:
+            SIGS.setdefault(f.cls.name, []).append(entry)
+
+
+def _fname(func: Any) -> Optional[str]:
+    if isinstance(func, tuple) and func:
+        if func[0] == "name":
+            return func[1]
+        if func[0] == "attr":
+            return func[2]
+    return None
+
+
+def param_name(func: Any, index: int) -> Optional[str]:
+    """Name of positional parameter ``index`` of the callee, when every candidate of that name agrees."""
+    cands = [c for c in SIGS.get(_fname(func) or "", []) if isinstance(c, tuple)]
+    names = {c[0][index] for c in cands if len(c[0]) > index and not c[1]}
+    if len(names) == 1 and all(len(c[0]) > index and not c[1] for c in cands):
+        return next(iter(names))
+    return None
+
+
+def param_index(func: Any, name: str) -> Optional[int]:
+    cands = [c for c in SIGS.get(_fname(func) or "", []) if isinstance(c, tuple) and name in c[0]]
+    idx = {c[0].index(name) for c in cands if not c[1]}
+    if len(idx) == 1 and all(not c[1] for c in cands):
+        return next(iter(idx))
+    return None
+
+
+def _all_keyword(t: Any) -> Optional[dict]:
+    """The arguments of a call term as {parameter name: term}, when the signature is known for every positional."""
+    out = {}
+    for i, a in enumerate(t[2]):
+        if isinstance(a, tuple) and a and a[0] == "star":
+            return None
+        n = param_name(t[1], i)
+        if n is None:
+            return None
+        out[n] = a
+    for k, v in t[3]:
+        if k == "**" or k in out:
+            return None
+        out[k] = v
+    return out
 
 
 def _commutative_call(f: Any) -> bool:
@@ -1333,6 +1441,7 @@ _CACHE: dict = {}
 
 
 def sym_of(P: Program, f: FunctionInfo, inline: bool = True) -> Sym:
+    register_signatures(P)
     k = (id(P), f.qualname, inline)
     if k not in _CACHE:
         _CACHE[k] = Sym(P, f, inline)
